@@ -53,6 +53,8 @@ def parseFault (f : String) : Option Fault :=
   | "create" => some .create
   | "wmsync" => some .wmSync
   | "rotate" => some .rotate
+  | "closewriter" => some .closeWriter
+  | "closewriter-norepair" => some .closeWriterNoRepair
   | _ =>
     match f.splitOn ":" with
     | ["unlink", k] => k.toNat?.map Fault.unlink
